@@ -4,16 +4,20 @@
 (* the real route.Engine:                                                  *)
 (*   Case{id, fam, raw, esc, routes, orders, lookups}                      *)
 (*   then for every order of the case, on a fresh engine:                  *)
-(*     Order{o, perm}                                                      *)
+(*     Order{o, perm, mode}             mode = engine set-up: "plain" |    *)
+(*                                      "use3" (three separate Use(noop))  *)
+(*                                      | "group" (two Use(noop), routes   *)
+(*                                      on Group("", noop))                *)
 (*     Register{r, m, pat, outcome}     one per route, in perm order; the  *)
 (*                                      driver abandons the order after a  *)
 (*                                      "panic" (a program whose           *)
 (*                                      registration panics does not       *)
 (*                                      serve)                             *)
-(*     Lookup{i, m, path, ran, params, byName, fullPath, status}           *)
+(*     Lookup{i, m, path, ran, mw, params, byName, fullPath, status}       *)
 (*                                      one per lookup of the case, in     *)
 (*                                      order; ran = ids of the route      *)
-(*                                      handlers that ran, params =        *)
+(*                                      handlers that ran, mw = number of  *)
+(*                                      middleware runs, params =          *)
 (*                                      ctx.Params, byName = ctx.Param(n)  *)
 (*                                      for the route's names, fullPath =  *)
 (*                                      ctx.FullPath() (all as seen by the *)
@@ -85,7 +89,7 @@ OrderDone == ord = 0 \/ stopped \/ (regn = K /\ lk = N + 1)
 
 TraceCase ==
   /\ l <= Len(Trace) /\ Line.ev = "Case" /\ Idle
-  /\ Line.id > 0 /\ Len(Line.orders) >= 1
+  /\ Line.id > 0 /\ Len(Line.orders) >= 1 /\ Len(Line.modes) = Len(Line.orders)
   /\ ci' = l
   /\ regd' = << >> /\ tried' = {} /\ outcome' = "none" /\ last' = NoLookup
   /\ ord' = 0 /\ regn' = 0 /\ stopped' = FALSE /\ lk' = 1
@@ -95,6 +99,7 @@ TraceCase ==
 TraceOrder ==
   /\ l <= Len(Trace) /\ Line.ev = "Order" /\ ~Idle /\ OrderDone
   /\ ord < Len(Cs.orders) /\ Line.o = ord + 1 /\ Line.perm = Cs.orders[ord + 1]
+  /\ Line.mode = Cs.modes[ord + 1] /\ Line.mode \in {"plain", "use3", "group"}
   /\ Len(Line.perm) = K /\ {Line.perm[i] : i \in 1 .. K} = 1 .. K
   /\ ord' = ord + 1 /\ regn' = 0 /\ stopped' = FALSE /\ lk' = 1
   /\ regd' = << >> /\ tried' = {} /\ outcome' = "none" /\ last' = NoLookup
@@ -119,6 +124,9 @@ TraceRegister ==
   /\ regn' = regn + 1 /\ last' = NoLookup
   /\ l' = l + 1 /\ UNCHANGED <<bad, ci, ord, lk>>
 
+\* middleware in front of every route of the engine set-up `mode` (see RouterGen!ModeSeq)
+MwCount(mode) == IF mode = "plain" THEN 0 ELSE 3
+
 ByNameList(r, pl) == [k \in 1 .. Len(r.names) |->
                         pl[CHOOSE j \in 1 .. Len(r.names) : r.names[j] = r.names[k] /\ \A h \in 1 .. j - 1 : r.names[h] # r.names[k]].v]
 
@@ -137,6 +145,7 @@ TraceLookup ==
        /\ in => IF res.found
                 THEN LET pl == ParamList(res.r, res.vals, Cs.raw) IN
                      /\ Line.ran = <<res.r.id>>
+                     /\ Line.mw = MwCount(Cs.modes[ord])        \* the route's chain = the group's middleware + its handler
                      /\ Line.fullPath = res.r.pat
                      /\ Line.params = pl
                      /\ Line.byName = ByNameList(res.r, pl)
